@@ -59,3 +59,8 @@ claim("C16", "abstract interpretation of the LLVM IR in a canonical BDD bit-vect
       "Proves bitcnt, clz, ctz on all 2^32 arguments and ilog2 on all x > 0, and const_pop / const_lssb applied to run-time 64-bit and 32-bit values on all 2^64 / 2^32 arguments, by equality of canonical Boolean-function vectors; a mismatch yields the witness argument. The macros as integer constant expressions are additionally evaluated by the compiler's constant folder on all one-bit, two-bit and contiguous-mask constants plus seeded pseudo-random ones.",
       "Compile-time use of the macros on ALL 2^64 constants is covered only through the run-time proof plus the assumption that clang's constant folder and run-time semantics agree on + >> & ?: over uint64_t. Trusted: clang 14 front end, ir2json, bdd.py/bvexec.py.",
       "DESIGN.md section 2 C16")
+claim("C15", "loop-free segment analysis of console.c over LLVM IR (guards on cursor stores, cursor update forms, NUL-suffix invariant, inductive argc invariant by linear entailment, GEP array-bound steps, dominance of the table-full test, call-order on dispatch segments), both CONFIG_NO_FIBRE settings",
+      "other",
+      "Decides the memory-safety and protocol clauses of C15 for every character stream: the line cursor never leaves the line buffer and buf[79] stays NUL; the line is NUL-terminated at the cursor when tokenised (backspace/abort included); argc/argv stay in bounds (inductive invariant); constant subscripts stay inside their arrays; registration changes nothing when the table is full, scans stop at the NULL sentinel, lookup is an exact match; tokenise -> find -> spawn -> prompt order; all three delivery routes feed the same ring before waking/running the console.",
+      "What the tokeniser yields for every stream (quoting and splitting semantics) is NOT decided. LP64 layout only. The command table's sentinel is a data invariant that is assumed. Trusted: clang 14 front end, ir2json, segment enumerator.",
+      "DESIGN.md section 2 C15")
